@@ -100,7 +100,7 @@ func init() {
 	eng.Register(&eng.Monitor{
 		ID: "C10", Level: "exploration", Race: true,
 		Rule: "cases = (group of copy constructors, parameter set drawn per seed: ring type, logN 4..9, Q/P prime sizes and counts, auxiliary modulus or power-of-two decomposition, NTT / coefficient domain, plaintext modulus with full or reduced slot count, encoder precision, secret distribution); inside a case every constructor of the group (ShallowCopy / WithKey / WithPRNG / WithParams / CopyNew / AtLevel of the types listed in the counters 'ctor:*') is applied to originals in every configuration of the group (key kinds, nil / partial / full / late-extended key sets, mode flags, compressed keys, levels) and judged by (1) the reflection walk original vs copy, (2) the differential schedule reference / original / copy / original / copy / copy-of-used / copy-of-copy with shared-memory hashes taken around it, (3) for CopyNew: no shared memory + bit-flip of every leaf of one side; race/ cases run 2..16 goroutines (one copy each, goroutine 0 on the original) under the race detector at GOMAXPROCS 2, 4 or 16 and compare every result with the sequential reference. " +
-			"distinct key = (constructor, configuration of the original, parameter set) plus, for race cases, (goroutines, GOMAXPROCS); every key is non-trivial in the sense of the property (a real constructor applied to a configured original and used afterwards); trivial keys do not exist in this monitor, so distinct_nontrivial is the number of distinct (constructor, configuration, parameters[, schedule]) tuples that were actually executed.",
+			"distinct key = (constructor, configuration of the original, parameter set) plus, for race cases, (goroutines, GOMAXPROCS), and for sampler views (sampler kind, level). Non-trivial = the original carries state the constructor has to preserve, re-allocate or rebind: a key or key set (full, partial, extended after construction), a mode flag, a precision, scratch buffers that the workload dirties, a compressed or reduced-level key, non-default metadata, or the constructor rebinds a key / PRNG / level / output parameters. Trivial (counted in subjects_trivial, not in distinct_nontrivial) = ShallowCopy of a keyless evaluator / encryptor or of a nil basis extender, AtLevel(current level), CopyNew of a container of plain numbers.",
 		Cases: cases,
 		Assumptions: []string{
 			"reflection + unsafe see every field and every word reachable from an object (maps, slices, pointers, interfaces, big.Int / big.Float internals); PRNG state (utils/sampling, blake2b) is excluded from equality but included in the sharing analysis",
